@@ -593,17 +593,15 @@ sexp sexp_scheduler (sexp ctx, sexp self, sexp_sint_t n, sexp root_thread) {
     /* the only thread available was waiting */
     /* TODO: if another thread is blocked on I/O, wait on that with
      * the appropriate minimum timeout */
-    if (sexp_pairp(paused)
+    if (sexp_pairp(paused) && sexp_car(paused) != res
         && sexp_context_before(sexp_car(paused), sexp_context_timeval(res))) {
-      tmp = res;
-      res = sexp_car(paused);
-      paused = sexp_global(ctx, SEXP_G_THREADS_PAUSED) = sexp_cdr(paused);
-      if (sexp_not(sexp_memq(ctx, tmp, paused)))
-        sexp_insert_timed(ctx, tmp, tmp);
-    } else {
-      sexp_delete_list(ctx, SEXP_G_THREADS_PAUSED, res);
+      /* wait on the earliest timeout instead */
+      if (sexp_not(sexp_memq(ctx, res, paused)))
+        sexp_insert_timed(ctx, res, res);
+      res = sexp_car(sexp_global(ctx, SEXP_G_THREADS_PAUSED));
     }
-    paused = sexp_global(ctx, SEXP_G_THREADS_PAUSED);
+    /* a thread which is still waiting stays in the paused list, so
+     * that it keeps its timeout and can be found by its event */
     usecs = 0;
     if ((sexp_context_timeval(res).tv_sec == 0)
         && (sexp_context_timeval(res).tv_usec == 0)) {
@@ -622,6 +620,7 @@ sexp sexp_scheduler (sexp ctx, sexp self, sexp_sint_t n, sexp root_thread) {
       } else {
         sexp_context_waitp(res) = 0;
         sexp_context_timeoutp(res) = 1;
+        sexp_delete_list(ctx, SEXP_G_THREADS_PAUSED, res);
       }
     }
     /* take a nap to avoid busy looping */
